@@ -417,7 +417,7 @@ func (in *Interp) concretize(t *Term, lo, hi int64, what string) int64 {
 	for v := lo; v <= hi; v++ {
 		opts = append(opts, in.ts.Eq(t, in.ts.Const(t.w, uint64(v))))
 	}
-	return lo + int64(in.decide(opts, 'c'))
+	return lo + int64(in.decide(opts, 'v'))
 }
 
 // ---------------------------------------------------------------------------
